@@ -9,7 +9,7 @@
    counting and tokio's task ownership are not modelled; the schema is tied to
    the real crate by destructor counters on every run (tools/props/c20.py). *)
 From Coq Require Import List NArith Arith Bool.
-From DesVerif Require Import Own.Heap Own.Frame Own.Inv Own.Shape Own.Rank Own.Check Own.Cycle Own.World Own.Model Own.Main.
+From DesVerif Require Import Own.Heap Own.Frame Own.Inv Own.Shape Own.Rank Own.Check Own.Cycle Own.Safe Own.SafeP Own.Ops Own.World Own.Model Own.Reach Own.Main.
 Import ListNotations.
 Local Open Scope nat_scope.
 
@@ -72,24 +72,59 @@ Theorem C20_supported_set_never_freed : forall (S : nat -> Prop) s roots, inv s 
 Proof. exact supported_survives. Qed.
 Print Assumptions C20_supported_set_never_freed.
 
-(* For the scripted simulations: whenever the model reports ok = 1, the graph
-   at the stopping point satisfies the hypotheses, hence nothing user-visible
-   is alive after the drop (nor anything else). *)
-Theorem C20_model_verdict_forces_release : forall input,
-  let '(w, roots, _) := stop_state false input in
-  goodb false (w_st w) roots = true -> alive_users (hp (release_all (w_st w) roots)) = 0%N.
-Proof. exact run_ok_means_all_freed. Qed.
-Print Assumptions C20_model_verdict_forces_release.
+(* REACHABILITY.  The simulation model touches the heap only through the primitives of
+   coq/Own/Safe.v (allocate behind a handle, clone a handle, move it into a field, move it out,
+   drop it, record a Weak).  Each keeps the state well formed, whatever its arguments: *)
+Theorem C20_primitives_preserve_wf : forall pin r,
+  G pin r ->
+  (forall t, G pin (fst (p_alloc r t))) /\ (forall x, G pin (p_clone r x)) /\
+  (forall src k x, G pin (p_move_in r src k x)) /\ (forall src k x, G pin (p_edge r src k x)) /\
+  (forall src p, G pin (fst (p_detach r src p))) /\ (forall x, G pin (p_release r x)) /\
+  (forall src l t, G pin (p_weak r src l t)).
+Proof.
+  intros pin r H. split; [intros; apply p_alloc_good; assumption|]. split; [intros; apply p_clone_good; assumption|].
+  split; [intros; apply p_move_in_good; assumption|]. split; [intros; apply p_edge_good; assumption|].
+  split; [intros; apply p_detach_good; assumption|]. split; [intros; apply p_release_good; assumption|].
+  intros; apply p_weak_good; assumption.
+Qed.
+Print Assumptions C20_primitives_preserve_wf.
 
-(* FULL STATEMENT NOT PROVED (kept as a run-time check instead):
-     forall input, let '(w, roots, _) := stop_state false input in good false (w_st w) roots
-   i.e. every graph reachable by the builder and event operations of Own/Model.v, at every
-   stopping point, is well formed.  The model evaluates the proved-sound checker on every
-   script and prints the verdict; proved here for the empty simulation only. *)
-Theorem C20_reachable_graphs_wf_partial :
-  let '(w, roots, _) := stop_state false [] in good false (w_st w) roots.
-Proof. exact empty_sim_good. Qed.
-Print Assumptions C20_reachable_graphs_wf_partial.
+(* ... hence every operation built from them does (one lemma per operation in coq/Own/OpsP.v,
+   WorldP.v, Reach.v: create module / child, create gate, connect with or without channel,
+   schedule / send / deliver a message, a message entering and leaving a channel buffer, spawn a
+   task, register a timer, activate / deactivate, shutdown, restart, dispatch of every event
+   kind, start-up, the event loop under every limit, tear-down), and by induction over the
+   script: EVERY graph a scripted simulation reaches, at EVERY stopping point, together with
+   the handles that are dropped then, is well formed.  (This was `C20_reachable_graphs_wf_partial`,
+   proved for the empty simulation only, with a run-time checker for the rest.) *)
+Theorem C20_reachable_graphs_wf : forall pin input,
+  let '(s, roots, _) := stop_state pin input in good pin s roots.
+Proof. exact stop_state_good. Qed.
+Print Assumptions C20_reachable_graphs_wf.
+
+(* END TO END, without the run-time checker: for every script (every simulation of the model's
+   language, every stopping point, every drop order) dropping the Sim / the runtime, the
+   remaining events and the caller's handles frees every object exactly once, releases no
+   handle after the free, leaves nothing allocated -- and the verdict the model prints is
+   forced: once = created for every class, 0 dropped otherwise, 0 alive, nothing allocated. *)
+Theorem C20_every_simulation_releases_everything : forall input,
+  let '(s, roots, _) := stop_state false input in
+  let s' := release_all s roots in
+  good false s roots /\
+  (forall o ob, nth_error (hp s') o = Some ob -> live ob = false) /\
+  (forall o, o < length (hp s) -> cnt o (freed s') = 1) /\
+  bad s' = [] /\
+  exists created, verdict s' = (created, created, 0, 0, 0)%N.
+Proof. exact every_simulation_releases_everything. Qed.
+Print Assumptions C20_every_simulation_releases_everything.
+
+(* the same, read off the line that `run` prints (two identical records, then 0) *)
+Theorem C20_model_output_all_freed : forall input,
+  exists ok res nrem time created lg,
+    run input = ([ok; res; nrem; time] ++ created ++ created ++ [0; 0; N.of_nat (length lg / 4)] ++ lg
+                 ++ [ok; res; nrem; time] ++ created ++ created ++ [0; 0; N.of_nat (length lg / 4)] ++ lg ++ [0])%N.
+Proof. exact run_prints_all_freed. Qed.
+Print Assumptions C20_model_output_all_freed.
 
 (* Non-vacuity (scripts: see coq/Own/Model.v; output: ok res nrem time created*4 once*4 notonce alive). *)
 Local Open Scope N_scope.
